@@ -44,7 +44,7 @@ ASSUMPTIONS = [
 ]
 BUDGET_S = {"quick": 55, "thorough": 780}
 REQUIRED_LABELS = {
-    "quick": ["model", "aa", "tight", "very_tight", "exact_f32", "bias", "nobias",
+    "quick": ["edge", "model", "aa", "tight", "very_tight", "exact_f32", "bias", "nobias",
               "k:dense", "k:conv1d", "k:conv2d", "k:dw2d", "kq:qb", "kq:po2",
               "kq:bin", "kq:ter", "kq:qb_auto_po2", "x:aligned", "lead_act",
               "aa:QDense", "aa:QConv2D", "aa:QConv1D", "aa:QDepthwiseConv2D"],
@@ -158,6 +158,17 @@ def make_inputs(case, first_idx, w_first):
     k = np.full([1] + shape, kmax)
   elif mode == "min":
     k = np.full([1] + shape, kmin)
+  elif mode == "lsb":
+    # one-hot inputs carrying the smallest positive code: every product is a
+    # single weight times one input step (exercises the fraction bits)
+    n = int(np.prod(shape))
+    hot = sorted(set(int(v) for v in rs.randint(0, n, size=4)))
+    k = np.zeros([len(hot), n], dtype=np.int64)
+    if kmin > 0:
+      k[:] = kmin
+    for r, h in enumerate(hot):
+      k[r, h] = max(1, kmin)
+    k = k.reshape([len(hot)] + shape)
   else:
     l = case["layers"][first_idx]
     w = w_first
@@ -501,7 +512,7 @@ def case_strategy(quick):
       # -1 x most-negative code is outside the domain (as min x min is)
       l["kq"] = dict(l["kq"], sym=1)
     l["bq"] = draw(G.st_bias_q(st))
-    l["wmode"] = draw(st.sampled_from(["random", "max", "min", "signed_max"]))
+    l["wmode"] = draw(st.sampled_from(["random", "max", "min", "signed_max", "lsb"]))
     l["wseed"] = draw(st.integers(0, 2 ** 16))
     return l
 
@@ -563,7 +574,7 @@ def case_strategy(quick):
         prev_act = draw(G.st_act_q(st))
         layers.append({"k": "act", "q": prev_act})
     case["layers"] = layers
-    case["xmode"] = draw(st.sampled_from(["random", "max", "min", "aligned"]))
+    case["xmode"] = draw(st.sampled_from(["random", "max", "min", "aligned", "lsb"]))
     case["xseed"] = draw(st.integers(0, 2 ** 16))
     case["batch"] = 2
     return case
@@ -618,13 +629,101 @@ def oracle(ctx, case):
   return fails
 
 
+def edge_cases(tier):
+  """Deterministic single-layer lattice: input family x kernel family x bias x
+  (weight mode, input mode); fan-in 4 (a power of two, so the top accumulator
+  bit is reachable).  quick: the layer kind rotates with the index; thorough:
+  full cross product with the four layer kinds."""
+  qb = lambda b, i, s=1, a=None: {"t": "qb", "bits": b, "int": i, "sym": s,
+                                  "kn": 1, "alpha": a}
+  inputs = [None, {"t": "relu", "bits": 3, "int": 1}, qb(3, 1),
+            {"t": "bin"}, {"t": "ter"}, {"t": "relu", "bits": 2, "int": 0}]
+  kernels = [qb(3, 0, 0, 1.0), qb(4, 1, 1, 1.0), qb(4, 0, 0, "auto_po2"),
+             {"t": "po2", "bits": 3, "mv": None}, {"t": "po2", "bits": 4, "mv": None},
+             {"t": "po2", "bits": 4, "mv": 4.0}, {"t": "po2", "bits": 4, "mv": 1.0},
+             {"t": "bin"}, {"t": "ter"}]
+  biases = [None, qb(4, 1, 0, 1.0), {"t": "po2", "bits": 3, "mv": None}]
+  modes = [("max", "max"), ("min", "max"), ("min", "min"), ("max", "min"),
+           ("signed_max", "aligned"), ("lsb", "lsb"), ("random", "random")]
+  geos = [
+      ("dense", [4], {"units": 2}),
+      ("conv1d", [3, 2], {"ks": [2], "st": [1], "dil": [1], "pad": "valid", "filters": 2}),
+      ("conv2d", [3, 3, 1], {"ks": [2, 2], "st": [1, 1], "dil": [1, 1], "pad": "valid",
+                             "filters": 2}),
+      ("dw2d", [3, 3, 2], {"ks": [2, 2], "st": [1, 1], "dil": [1, 1], "pad": "same"}),
+  ]
+  out = []
+  idx = 0
+  for ii, lead in enumerate(inputs):
+    for ik, kq in enumerate(kernels):
+      for ib, bq in enumerate(biases):
+        for im, (wm, xm) in enumerate(modes):
+          idx += 1
+          kinds = range(4) if tier != "quick" else [(ii + ik + ib + im) % 4]
+          for g in kinds:
+            kind, in_shape, geo = geos[g]
+            k2 = dict(kq)
+            if lead is not None and lead["t"] in ("bin", "ter") and \
+                k2["t"] == "qb" and not G.is_auto(k2):
+              k2["sym"] = 1
+            l = dict({"k": kind, "bias": bq is not None, "kq": k2,
+                      "bq": bq or qb(4, 1, 0, 1.0), "wmode": wm, "wseed": idx}, **geo)
+            case = {"type": "model", "in_shape": in_shape}
+            if lead is None:
+              case["src"] = qb(3 + idx % 2, idx % 2)
+              layers = []
+            else:
+              case["lead_act"] = lead
+              if lead["t"] in ("bin", "ter"):
+                case["src"] = qb(2, 1)
+              elif lead["t"] == "relu":
+                case["src"] = qb(lead["bits"] + 1, lead["int"])
+              else:
+                case["src"] = qb(lead["bits"], lead["int"])
+              layers = [{"k": "act", "q": lead}]
+            case["layers"] = layers + [l]
+            case.update(xmode=xm, xseed=idx, batch=2)
+            out.append(case)
+  # estimator lattice
+  for g, (kind, in_shape, geo) in enumerate(geos):
+    for bias in (False, True):
+      for rng in ([-8, 8], [0, 12], [-16, 4], [-2, 3]):
+        for nout in (1, 3):
+          idx += 1
+          geo2 = dict(geo, pad="valid")
+          if kind == "dense":
+            geo2["units"] = nout
+            shp = in_shape
+          elif kind == "conv1d":
+            geo2["filters"] = nout
+            shp = [2, 2]
+          elif kind == "conv2d":
+            geo2["filters"] = nout
+            shp = [2, 2, 1]
+          else:
+            shp = [2, 2, nout]
+          l = dict({"k": kind, "bias": bias, "kq": qb(3, 1, 1, 1.0),
+                    "bq": qb(4, 2, 1, 1.0), "wmode": "random", "wseed": idx}, **geo2)
+          out.append({"type": "aa", "in_shape": shp, "layers": [l], "range": rng})
+  return out
+
+
 def run(ctx):
   from hypothesis import strategies as st  # pylint: disable=g-import-not-at-top
   quick = ctx.quick
+  cases = edge_cases(ctx.tier)
+  ctx.info["lattice_size"] = len(cases) if ctx.idx == 0 else 0
+  for case in ctx.shard(cases):
+    if ctx.time_left() <= 0:
+      ctx.labels["inconclusive_time"] += 1
+      break
+    ctx.labels["edge"] += 1
+    for sc, sig, detail in oracle(ctx, case):
+      ctx.fail(sc, sig, case, detail)
   st_model, st_aa = case_strategy(quick)
   # one interleaved stream (2 model cases : 1 estimator case) so that a run cut
   # short by the time budget has still covered both families
-  n = (1920 if quick else 32000) // ctx.n + 1
+  n = (1440 if quick else 32000) // ctx.n + 1
   strat = st.one_of(st_model, st_model, st_aa)
   core.hyp_run(ctx, strat, lambda c: oracle(ctx, c), n, name="c18")
 
